@@ -2733,6 +2733,15 @@ impl KotoVm {
                         match value {
                             Tuple(new_entry) if new_entry.len() == 2 => {
                                 let key = ValueKey::try_from(new_entry[0].clone())?;
+                                // The new key can't already be in use by a different entry
+                                if map_data
+                                    .get_index_of(&key)
+                                    .is_some_and(|existing_index| existing_index != u_index)
+                                {
+                                    return runtime_error!(
+                                        "the key '{key}' is already used by another entry in the map"
+                                    );
+                                }
                                 // There's no API on IndexMap for replacing an entry,
                                 // so use swap_remove_index to remove the old entry,
                                 // then insert the new entry at the end of the map,
